@@ -26,6 +26,8 @@ const OFF_DISC: u64 = 16_000_000;
 const OFF_FILT: u64 = 32_000_000;
 const OFF_STRAT: u64 = 64_000_000;
 const OFF_EXTRA: u64 = 128_000_000;
+/// login-phase think time (used for at most three answers: 256 + 256 + 256 < 1024 and the 512 bit is otherwise free)
+const OFF_THINK: u64 = 256_000_000;
 
 fn lat(rng: &mut Rng, off: u64) -> u64 {
     let base = match rng.below(8) {
@@ -58,6 +60,13 @@ fn generate(rng: &mut Rng) -> ConnScenario {
         3 => secs(rng.range(16, 60)) + OFF_INFO,
         _ => secs(16) + OFF_INFO,
     };
+    // a slow client in the login phase (cookie responses, Encryption Response): nothing but the
+    // login packets may be sent meanwhile, and the keep-alive clock only matters from Login Acknowledged on
+    if rng.chance(1, 4) {
+        for _ in 0..3 {
+            client.login_think_ns.push(if rng.chance(1, 2) { secs(rng.range(0, 40)) + OFF_THINK } else { 0 });
+        }
+    }
     let style = rng.below(5);
     let pol = |rng: &mut Rng| -> KaPolicy {
         match rng.below(12) {
@@ -77,7 +86,7 @@ fn generate(rng: &mut Rng) -> ConnScenario {
             client.ka.push(p);
         }
     }
-    let after = (services.auth.default.lat_ns.unwrap_or(0) + client.ack_delay_ns) / 1_000_000_000 + 1;
+    let after = (services.auth.default.lat_ns.unwrap_or(0) + client.ack_delay_ns + client.login_think_ns.iter().sum::<u64>()) / 1_000_000_000 + 2;
     for _ in 0..rng.below(3) {
         client.extras.push(Extra {
             after_ack: false,
@@ -109,6 +118,18 @@ pub fn check(sc: &ConnScenario, out: &ConnOutcome, rep: &mut RunReport) {
     if let Some(u) = &out.view.undecodable {
         rep.violate("stream_decodes", u.clone());
         return;
+    }
+    // the login phase knows no Keep Alive and no timeout Disconnect, however slow the client is
+    let t_ls = out.view.first("LoginSuccess").map(|p| p.t_ns);
+    for p in &out.view.packets {
+        if matches!(p.kind.as_str(), "KeepAlive" | "Disconnect") && t_ls.is_none_or(|t| p.t_ns < t) {
+            rep.violate("no_keep_alive_before_configuration", format!("{} at {} ns, before Login Success", p.kind, p.t_ns));
+        }
+    }
+    for p in &out.view.packets {
+        if p.phase == "login" && !matches!(p.kind.as_str(), "CookieRequest" | "EncryptionRequest" | "LoginSuccess") {
+            rep.violate("no_keep_alive_before_configuration", format!("{} (id {:#x}) at {} ns in the login phase", p.kind, p.id, p.t_ns));
+        }
     }
     let Some(t_ack) = out.view.sent.iter().find(|s| s.kind == "LoginAck").map(|s| s.t_ns) else {
         return; // never reached the configuration phase
@@ -276,6 +297,9 @@ impl Check for C07 {
                 return RunReport::default();
             }
         }
+        if c.login_think_ns.len() > 3 || c.login_think_ns.iter().any(|t| !okc(*t, OFF_THINK)) {
+            return RunReport::default();
+        }
         if c.extras.iter().any(|e| e.at_ns % 1_000_000_000 != OFF_EXTRA || e.id != 0x04 || !matches!(e.body, Body::KeepAlive { id: KaId::Fixed(_) })) {
             return RunReport::default();
         }
@@ -294,6 +318,9 @@ impl Check for C07 {
         }
         if !c.extras.is_empty() {
             *rep.faults.entry("unsolicited_keep_alive".into()).or_insert(0) += 1;
+        }
+        if c.login_think_ns.iter().any(|t| *t >= PERIOD) {
+            *rep.faults.entry("client_slow_in_login_phase_beyond_a_period".into()).or_insert(0) += 1;
         }
         check(sc, &out, &mut rep);
         rep
